@@ -29,6 +29,20 @@ CLAIMED = {
              "rank-1 numeric arrays (assumed contract); string results re-joined. Termination of Converge/While is not claimed.",
         ref="DESIGN.md section 4 C02",
         technique=TECH + "; Lean 4 for the fold lemmas; exhaustive enumeration of the operator shortcut table"),
+    'C04': dict(
+        text="Frame conditions by ownership typing over the real AST, for every input: no verb, adverb or backend helper (every "
+             "function of dyads.py, monads.py, adverbs.py, merge_projections, vec_fn/vec_fn2/rec_fn/kg_asarray) writes through an "
+             "operand - alias-aware (slices are views, asarray/reshape/to_numpy may return their argument, shallow copies share "
+             "members), modular (callee summaries: which parameters are written, what the result may alias); the only operand "
+             "writes are the documented dictionary updates of Join/Drop under a dictionary test; the evaluator writes nothing into "
+             "the tree it evaluates except the memo field _compiled; _resolve_fn's f_args is caller-allocated at every call site.",
+        note="Partial: history-independence of the parse/compile caches (a relation between runs) and arity fields written on operator "
+             "nodes during parsing are NOT decided. Literal dictionaries: C10's obligations; cache clearing on rebinding: C05/C09's. "
+             "Assumed: NumPy/builtin allocation contracts tabulated in pyvc/frames.py; unknown callees do not write their arguments. "
+             "A typing failure has no solver model: the replay is a fixed battery on the real verb tables (bounded).",
+        ref="DESIGN.md section 4 C04",
+        technique="frame conditions on the real functions discharged by flow-sensitive ownership/alias typing of their Python ast "
+                  "(modular, callee summaries), re-read from /repo on every run; bounded native battery as replay"),
     'C05': dict(
         text="Mechanism contracts of the expression compiler: for every IR production the source template emitted by the real "
              "_ir_to_source of both backends, parsed by CPython's ast, is the expected expression for THAT operator with operands in "
